@@ -553,7 +553,10 @@ func execCache(ops []string) string {
 			if atoi(op[5:]) == 0 {
 				best = chainhash.Hash{} // id 0 is the all-zero hash a new cache starts with
 			}
-			err := c.Flush(flushMode(op[1]), op[2] == '1', op[3] == '1', best)
+			if op[2] < '0' || op[2] > '3' || op[3] < '0' || op[3] > '3' {
+				return "bad-op"
+			}
+			err := c.FlushEdge(flushMode(op[1]), int(op[2]-'0'), int(op[3]-'0'), best)
 			res = "ok"
 			if err != nil {
 				res = "err"
